@@ -10,7 +10,31 @@ var Item = Type("Item", func() {
 	Required("n")
 })
 
+// validated user types nested two levels deep, used on the request and on the response side
+var Geo = Type("Geo", func() {
+	Field(1, "lat", Float64, func() {
+		Minimum(-90)
+		Maximum(90)
+	})
+	Required("lat")
+})
+var Address = Type("Address", func() {
+	Field(1, "street", String, func() { MinLength(1) })
+	Field(2, "geo", Geo)
+	Required("street", "geo")
+})
+var Owner = Type("Owner", func() {
+	Field(1, "name", String)
+	Field(2, "addr", Address)
+	Required("name", "addr")
+})
+
 var _ = Service("svc", func() {
+	Method("move", func() {
+		Payload(Owner)
+		Result(Owner)
+		GRPC(func() {})
+	})
 	Method("put", func() {
 		Payload(func() {
 			Field(1, "id", String)
@@ -25,6 +49,7 @@ var _ = Service("svc", func() {
 			Field(10, "u", UInt32)
 			Field(11, "mode", String, func() { Enum("ro", "rw") })
 			Field(12, "ids", ArrayOf(UInt64))
+			Field(13, "big_id", UInt64)
 			Required("id", "tenant")
 		})
 		Result(func() {
@@ -38,6 +63,7 @@ var _ = Service("svc", func() {
 				Attribute("tenant")
 				Attribute("mode")
 				Attribute("ids")
+				Attribute("big_id")
 			})
 			// explicit response message listing required result attributes
 			Response(CodeOK, func() {
